@@ -636,6 +636,9 @@ fn cmd_print(args: &Args) {
                 off += c.numel();
             }
         }
+        // error exits now and then: a closing row with step 0 at an iteration > 0 (step limit above max_step_fraction), tiny budgets
+        if run % 10 == 7 { if !p.settings.is_object() { p.settings = json!({}); } p.settings["min_terminate_step_length"] = json!([0.995, 1.0, 0.9][rng.gen_range(0..3)]); }
+        if run % 10 == 2 { if !p.settings.is_object() { p.settings = json!({}); } p.settings["max_iter"] = json!(rng.gen_range(0..4)); }
         lines.push(rec_more::print_case(run, &p, &dir));
         cases.push(json!({"run": run, "problem": p}));
     }
